@@ -12,3 +12,6 @@ pub mod validate;
 pub mod api;
 pub mod c01;
 pub mod c04;
+pub mod prob;
+pub mod c05;
+pub mod c06;
